@@ -306,7 +306,21 @@ def run_layout(R, tonic):
                     rng = strip_refs(ch.origin(it['args'][1]))
                     if rng[0] == 'agg' and rng[1].get('adt', '').endswith('RangeTo') and field_names(rng[2][0])[-1:] == ['len'] and any(ss == s and (vals == ['else'] or 0 not in vals) for ss, vals, tm in ch.edge_guards(ib)):
                         okc = True
-        R.check(okc, 'C01.R6', 'chunk-truncated', site(ch), 'chunk(): if ret.len() > self.len { &ret[..self.len] }')
+        if not okc:
+            # the min() spelling: &ret[..ret.len().min(self.len)]
+            rts = mirlib.returned_terms(ch)
+            if len(rts) == 1:
+                ixs = find_terms(rts[0][1], lambda x: is_call(x, name='index'))
+                if ixs:
+                    rng = strip_refs(ixs[0][2][1])
+                    if rng[0] == 'agg' and rng[1].get('adt', '').endswith('RangeTo'):
+                        mn = strip_refs(rng[2][0])
+                        if is_call(mn, name='min') and len(mn[2]) == 2:
+                            a_, b_ = strip_refs(mn[2][0]), strip_refs(mn[2][1])
+                            is_len = lambda x: field_names(x)[-1:] == ['len'] and not is_call(x)
+                            is_rl = lambda x: is_call(x, name='len') and term_contains(x, lambda y: is_call(y, name='chunk'))
+                            okc = (is_len(a_) and is_rl(b_)) or (is_len(b_) and is_rl(a_))
+        R.check(okc, 'C01.R6', 'chunk-truncated', site(ch), 'chunk(): the inner chunk cut to at most self.len bytes (if ret.len() > self.len { &ret[..self.len] } | &ret[..ret.len().min(self.len)])')
         for nm, inner in (('advance', 'advance'), ('copy_to_bytes', 'copy_to_bytes')):
             b = m(nm)
             R.saw(b)
